@@ -529,10 +529,14 @@ func (x *dbExec) step(db *simpledb.DB, s dbStep, g int) (*simpledb.DB, error) {
 		fp := filepath.Join(x.dir, s.Match, s.Which)
 		b, err := os.ReadFile(fp)
 		if err == nil && len(b) > s.Pos && s.Pos > 0 {
+			st, _ := os.Stat(fp)
 			f, err2 := os.OpenFile(fp, os.O_WRONLY, 0)
 			if err2 == nil {
 				_, err2 = f.WriteAt([]byte{b[len(b)-s.Pos] ^ 0x20}, int64(len(b)-s.Pos))
 				f.Close()
+			}
+			if st != nil {
+				os.Chtimes(fp, st.ModTime(), st.ModTime()) // bit rot does not touch the modification time (same inode, same size, same mtime)
 			}
 			err = err2
 		} else if err == nil {
